@@ -34,6 +34,26 @@ void ev_signal_start(struct ev_loop*, ev_signal*); void ev_child_start(struct ev
 #define ev_io_init(w,c,f,e) do{ev_init(w,c);(w)->fd=(f);(w)->events=(e);}while(0)
 #define ev_signal_init(w,c,s) do{ev_init(w,c);(w)->signum=(s);}while(0)
 #define ev_child_init(w,c,p,t) do{ev_init(w,c);(w)->pid=(p);(w)->flags=(t);}while(0)
+/* the rest of the documented watcher interface, so that a tree that uses more of it than echsd does today still builds */
+#define ev_periodic_set(w,o,i,r) do{(w)->offset=(o);(w)->interval=(i);(w)->reschedule_cb=(r);}while(0)
+#define ev_timer_set(w,a,r) do{(w)->at=(a);(w)->repeat=(r);}while(0)
+#define ev_io_set(w,f,e) do{(w)->fd=(f);(w)->events=(e);}while(0)
+#define ev_signal_set(w,s) do{(w)->signum=(s);}while(0)
+#define ev_child_set(w,p,t) do{(w)->pid=(p);(w)->flags=(t);}while(0)
+#define ev_set_cb(w,c) ((w)->cb=(c))
+#define ev_cb(w) ((w)->cb)
+#define ev_now(l) ev_stub_now(l)
+#define EV_WRITE 2
+#define EV_TIMER 0x100
+#define EV_PERIODIC 0x200
+#define EV_SIGNAL 0x400
+#define EV_CHILD 0x800
+#define EVBREAK_ONE 1
+#define EVRUN_NOWAIT 1
+#define EVRUN_ONCE 2
+ev_tstamp ev_stub_now(struct ev_loop*);
+void ev_timer_stop(struct ev_loop*, ev_timer*); void ev_timer_again(struct ev_loop*, ev_timer*); void ev_signal_stop(struct ev_loop*, ev_signal*);
+void ev_periodic_again(struct ev_loop*, ev_periodic*);
 #define ev_is_pending(w) (0 + (w)->pending)
 #define ev_is_active(w) (0 + (w)->active)
 #endif
